@@ -108,10 +108,10 @@ Proof.
   - destruct rest; [destruct name; reflexivity|].
     destruct (find_bg _ _); [reflexivity|].
     destruct (can_start _ _ _); [simpl; rewrite mark_racy_files; reflexivity|].
-    destruct neg; reflexivity.
+    unfold start_failed_state; destruct (is_bare _ && _), neg; reflexivity.
   - destruct (can_start _ _ _).
     + destruct (meets _ _); simpl; rewrite mark_racy_files; reflexivity.
-    + destruct neg; reflexivity.
+    + unfold start_failed_state; destruct (is_bare _ && _), neg; reflexivity.
 Qed.
 Lemma fil_custom cfg k neg args st : Fl (cmd_custom cfg k neg args st) = s_files st.
 Proof. unfold Fl, cmd_custom. crushf. Qed.
@@ -254,7 +254,7 @@ Proof.
   - destruct rest as [|r0 rest']; [reflexivity|].
     change (s_bg (swapfu st t u)) with (s_bg st).
     destruct (find_bg (s_bg st) name); [reflexivity|].
-    rewrite Hc. destruct (can_start cfg st prog); [|destruct neg; reflexivity].
+    rewrite Hc. destruct (can_start cfg st prog); [|(unfold start_failed_state; change (prog_found cfg (swapfu st t u) prog) with (prog_found cfg st prog); destruct (is_bare prog && negb (prog_found cfg st prog)), neg; reflexivity)].
     pose proof (hw_removelast _ Hf) as Hf'.
     change (s_in (swapfu st t u)) with (s_in st). change (s_env (swapfu st t u)) with (s_env st).
     change (s_cd (swapfu st t u)) with (s_cd st). change (s_fs (swapfu st t u)) with t.
@@ -262,7 +262,7 @@ Proof.
     rewrite Hf'.
     pose proof (helper_tree_free_fs_any (removelast (r0 :: rest')) (s_in st) (s_env st) (s_cd st) (s_fs st) Hf') as Hfs.
     cbn [h_fs h_code h_out h_err h_sleeper]. rewrite Hfs. destruct (c_cancelled cfg); reflexivity.
-  - rewrite Hc. destruct (can_start cfg st prog); [|destruct neg; reflexivity].
+  - rewrite Hc. destruct (can_start cfg st prog); [|(unfold start_failed_state; change (prog_found cfg (swapfu st t u) prog) with (prog_found cfg st prog); destruct (is_bare prog && negb (prog_found cfg st prog)), neg; reflexivity)].
     change (s_in (swapfu st t u)) with (s_in st). change (s_env (swapfu st t u)) with (s_env st).
     change (s_cd (swapfu st t u)) with (s_cd st). change (s_fs (swapfu st t u)) with t.
     rewrite (helper_tree_free rest (s_in st) (s_env st) (s_cd st) (s_fs st) Hf).
